@@ -6,7 +6,21 @@ as for generated programs: an entry the compiler REJECTS is fine for C02 (nothin
 must run without a type-error-like failure and every observed value must have the kind `typeof` promises.
 `expect` records what the compiler is expected to do (accept / reject) so that a change of verdict shows up
 in the evidence even when it is not a violation.
+An entry is (name, expect, source) or (name, expect, source, {file name: text}) when the program imports other files;
+`finding_class` maps the entries that are witnesses of one defect to one class string.
 """
+
+SHAPES_LIB = {"shapes.ms": """export class Dog {
+	name: str
+	constructor(self, name: str) {
+		self.name = name
+	}
+	fn speak(self) -> str {
+		return self.name + " says woof"
+	}
+}
+export rex: Dog = Dog("Rex")
+"""}
 
 CATALOGUE = [
     # ---- a condition that happens to be a constant does not make its branch "always taken" (seed C02-2)
@@ -1354,6 +1368,269 @@ g = fn() {
 g()
 OBS 1
 """),
+    # ---- a value whose type leaves a kind open (`[]`, `nil`, also nested) cannot be reached under a NAME: the type is
+    #      compatible with every list / optional type, so one object was handed out as `[int...]` here and `[str...]` there (hunt2 B/1)
+    ("empty-list-under-a-name-as-two-element-types", "reject", """
+const e = []
+f = fn(l: [int...]) {
+	l.push(1)
+}
+g = fn(l: [str...]) -> str {
+	return l[0]
+}
+f(e)
+OBS g(e)
+"""),
+    ("empty-list-under-a-name-bound-to-two-annotated-names", "reject", """
+const e = []
+a: [int...] = e
+b: [str...] = e
+a.push(7)
+OBS b[0]
+"""),
+    ("list-of-nil-under-a-name-as-two-optional-element-types", "reject", """
+const p = [nil]
+f = fn(l: [int?...]) {
+	l[0] = 1
+}
+g = fn(l: [str?...]) -> str {
+	return get l[0]
+}
+f(p)
+OBS g(p)
+"""),
+    ("open-list-of-nils-under-a-name", "reject", """
+const p = [nil, nil]
+f = fn(l: [int?...]) {
+	l[1] = 1
+}
+g = fn(l: [str?...]) -> str {
+	return get l[1]
+}
+f(p)
+OBS g(p)
+"""),
+    ("nested-empty-list-under-a-name", "reject", """
+const p = [[]]
+f = fn(l: [int...]) {
+	l.push(1)
+}
+g = fn(l: [str...]) -> str {
+	return l[0]
+}
+f(p[0])
+OBS g(p[0])
+"""),
+    ("nested-empty-list-handed-out-whole", "reject", """
+const p = [[], 1]
+f = fn(l: [[int...], int]) {
+	const inner = l[0]
+	inner.push(1)
+}
+g = fn(l: [[str...], int]) -> str {
+	const inner = l[0]
+	return inner[0]
+}
+f(p)
+OBS g(p)
+"""),
+    ("empty-list-unpacked-into-a-name", "reject", """
+const [a, b] = [[], 1]
+f = fn(l: [int...]) {
+	l.push(b)
+}
+g = fn(l: [str...]) -> str {
+	return l[0]
+}
+f(a)
+OBS g(a)
+"""),
+    ("clone-of-empty-list-under-a-name", "reject", """
+const e = [].clone()
+f = fn(l: [float...]) {
+	l.push(1.5)
+}
+g = fn(l: [bool...]) -> bool {
+	return l[0]
+}
+f(e)
+OBS g(e)
+"""),
+    ("nil-or-empty-list-under-a-name", "reject", """
+const e = nil or []
+f = fn(l: [int...]) {
+	l.push(1)
+}
+g = fn(l: [str...]) -> str {
+	return l[0]
+}
+f(e)
+OBS g(e)
+"""),
+    ("nil-slot-of-fixed-list-under-a-name", "reject", """
+const t = [nil, 1]
+f = fn(l: [int?, int]) {
+	l[0] = 5
+}
+g = fn(l: [str?, int]) -> str {
+	return get l[0]
+}
+f(t)
+OBS g(t)
+"""),
+    ("empty-list-under-a-name-inside-a-function", "reject", """
+h = fn() -> str {
+	const e = []
+	a: [int...] = e
+	b: [str...] = e
+	a.push(7)
+	return b[0]
+}
+OBS h()
+"""),
+    ("empty-list-and-nil-with-annotation", "accept", """
+a: [int...] = []
+a.push(1)
+OBS a[0]
+b: [int?...] = [nil]
+b.push(2)
+OBS b[1]
+const d: [int?, str] = [nil, "s"]
+OBS d[1]
+e: [[int...]...] = [[], [1]]
+OBS e.len()
+f = fn(l: [int...]) -> int {
+	l.push(1)
+	return l[0]
+}
+OBS f([])
+g = fn() -> [str...] {
+	return []
+}
+gl = g()
+OBS gl.len()
+o: int? = nil
+OBS (o) or 4
+"""),
+    # ---- a fixed-shape list gets the growable list's methods only when EVERY element fits one definite element type:
+    #      compatibility is not transitive (`int?` accepts `nil`, `nil` accepts `str?`) (hunt2 B/2)
+    ("nil-between-two-optional-kinds-remove", "reject", """
+x: int? = 1
+y: str? = "s"
+r = [x, nil, y].remove(2)
+OBS (r) or 0
+"""),
+    ("nil-between-two-optional-kinds-reverse", "reject", """
+x: int? = 1
+y: str? = "s"
+const p = [x, nil, y]
+p.reverse()
+OBS get p[0]
+"""),
+    ("nil-between-two-optional-kinds-map", "reject", """
+x: int? = 1
+y: str? = "s"
+r = [x, nil, y].map(fn(v: int?) -> int {
+	return (v) or 0
+})
+OBS r[2]
+"""),
+    ("nil-between-two-optional-kinds-filter", "reject", """
+x: int? = 1
+y: str? = "s"
+r = [x, nil, y].filter(fn(v: int?) -> bool {
+	return v != nil
+})
+OBS get r[1]
+"""),
+    ("nil-first-then-two-optional-kinds", "reject", """
+x: int? = 1
+y: str? = "s"
+r = [nil, x, y].remove(2)
+OBS r
+"""),
+    ("empty-list-between-two-list-kinds-remove", "reject", """
+a: [int...] = [1]
+b: [str...] = ["s"]
+r = [a, [], b].remove(2)
+OBS r[0]
+"""),
+    ("empty-list-between-two-list-kinds-reverse", "reject", """
+a: [int...] = [1]
+b: [str...] = ["s"]
+const p = [a, [], b]
+p.reverse()
+const q = p[0]
+OBS q[0]
+"""),
+    ("nil-slots-hide-two-optional-kinds-one-level-down", "reject", """
+x: int? = 1
+y: str? = "s"
+f = fn(p: [int?, int?]) -> int {
+	return get p[1]
+}
+OBS f([[x, nil], [nil, y]].remove(1))
+"""),
+    ("optional-then-values-of-its-kind-is-open", "accept", """
+x: int? = 1
+const p = [x, 2, 3]
+r = p.remove(0)
+OBS (r) or 9
+p.reverse()
+OBS p[0]
+s = [nil, x, 5].remove(2)
+OBS (s) or 8
+"""),
+    # ---- a class read through its module WITHOUT a call is the constructor (a function), not an instance (hunt2 B/5)
+    ("module-class-read-without-call-field", "reject", """
+import shapes
+K = shapes.Dog
+OBS K.name
+""", SHAPES_LIB),
+    ("module-class-read-without-call-method", "reject", """
+import shapes
+OBS shapes.Dog.speak()
+""", SHAPES_LIB),
+    ("module-class-passed-as-an-instance", "reject", """
+import shapes
+import Dog from shapes
+greet = fn(d: Dog) -> str {
+	return d.speak()
+}
+OBS greet(shapes.rex)
+OBS greet(shapes.Dog)
+""", SHAPES_LIB),
+    ("module-class-stored-as-an-instance", "reject", """
+import shapes
+import Dog from shapes
+d: Dog = shapes.Dog
+OBS d.name
+""", SHAPES_LIB),
+    ("module-class-as-list-element-of-instances", "reject", """
+import shapes
+const l = [shapes.rex, shapes.Dog]
+const d = l[1]
+OBS d.name
+""", SHAPES_LIB),
+    ("module-class-returned-as-an-instance", "reject", """
+import shapes
+import Dog from shapes
+mk = fn() -> Dog {
+	return shapes.Dog
+}
+d = mk()
+OBS d.speak()
+""", SHAPES_LIB),
+    ("module-class-read-then-called", "accept", """
+import shapes
+K = shapes.Dog
+d = K("Bo")
+OBS d.speak()
+OBS shapes.rex.speak()
+OBS shapes.Dog("Al").name
+e = shapes.rex
+OBS e.name
+""", SHAPES_LIB),
     # ---- the language's own dynamic failures stay allowed
     ("allowed-get-nil", "accept", """
 e: int? = nil
@@ -1442,14 +1719,35 @@ NESTED_CLASS = {"class-declared-in-function", "class-declared-in-loop", "class-d
                 "class-in-function-named-like-a-module-class", "two-functions-each-with-a-class-of-one-name"}
 NESTED_CLASS_FINDING = "catalogue:class-declared-below-module-level"
 
+# entries that are witnesses of ONE defect report under one class string
+UNDETERMINED_NAME_FINDING = "catalogue:undetermined-literal-type-under-a-name"
+NEIGHBOUR_COERCION_FINDING = "catalogue:fixed-list-coerced-to-open-by-neighbour-comparison"
+MODULE_CLASS_FINDING = "catalogue:module-class-read-without-call-typed-as-instance"
+
+
+def finding_class(name):
+    if name in NESTED_CLASS:
+        return NESTED_CLASS_FINDING
+    if name.endswith("-under-a-name") or name.startswith(("empty-list-under-a-name", "list-of-nil-under-a-name")) or name in (
+            "nested-empty-list-handed-out-whole", "empty-list-unpacked-into-a-name"):
+        return UNDETERMINED_NAME_FINDING
+    if "-between-two-" in name or name in ("nil-first-then-two-optional-kinds", "nil-slots-hide-two-optional-kinds-one-level-down"):
+        return NEIGHBOUR_COERCION_FINDING
+    if name.startswith("module-class-"):
+        return MODULE_CLASS_FINDING
+    return "catalogue:" + name
+
 
 def entries():
     res = []
-    for name, expect, src in CATALOGUE:
+    for ent in CATALOGUE:
+        name, expect, src = ent[:3]
+        files = dict(ent[3]) if len(ent) > 3 and ent[3] else {}
         text, n = expand(src)
-        res.append({"name": name, "expect": expect, "src": text, "nobs": n,
-                    "cls": NESTED_CLASS_FINDING if name in NESTED_CLASS else "catalogue:" + name,
+        decls = src.split("\n") + [l for t in files.values() for l in t.split("\n")]
+        res.append({"name": name, "expect": expect, "src": text, "nobs": n, "files": files,
+                    "cls": finding_class(name),
                     "meta": {"obs": {i: ("catalogue:" + name, None) for i in range(1, n + 1)},
-                             "classes": sorted(set(l.split()[1] for l in src.split("\n") if l.startswith("class "))),
+                             "classes": sorted(set(l.split()[2 if l.startswith("export ") else 1] for l in decls if l.startswith(("class ", "export class ")))),
                              "aliases": {l.split()[1]: l.split()[2] for l in src.split("\n") if l.startswith("type ")}}})
     return res
